@@ -43,3 +43,32 @@ package internal
 //@   requires *mon != nil && *mon is sensorMonitor && sensors.sensorWF((*mon).(sensorMonitor).sensor) && *ctx != nil && sensors.sensorWF(*s)
 //@   requires configuration.CurrentConfig.TempRollingWindowSize >= 1 && configuration.CurrentConfig.TempRollingWindowSize <= 1000000000
 //@   modifies anything
+
+// ---- start-up: binding hwmon sensors to devices (C17) -----------------------------------------------------------
+//@ opaque func github.com/markusressel/fan2go/internal/statistics.NewSensorCollector
+//@   modifies nothing
+//@   trusted "prometheus collector constructor; no effect on sensors or configuration"
+//@ opaque func github.com/markusressel/fan2go/internal/statistics.Register
+//@   modifies nothing
+//@   trusted "prometheus registration; no effect on sensors or configuration"
+//@ opaque func github.com/markusressel/fan2go/internal/sensors.RegisterSensor
+//@   modifies sensorReg, sensorFinite
+//@   trusted "stores the sensor in the package-level registry"
+
+//@ pure sensorBound(h *configuration.HwMonSensorConfig, cs []*hwmon.HwMonController) bool = exists i int :: 0 <= i && i < len(cs) && reMatch["(?i)" + h.Platform][cs[i].Platform] && (h.Index in cs[i].Sensors) && h.TempInput == cs[i].Sensors[h.Index].Input
+//@ pure sensorCfgs() []configuration.SensorConfig = configuration.CurrentConfig.Sensors
+
+//@ func initializeSensors
+//@   props C17
+//@   requires forall i int :: 0 <= i && i < len(controllers) ==> controllers[i] != nil
+//@   requires forall i int, k int :: 0 <= i && i < len(controllers) && (k in controllers[i].Sensors) ==> controllers[i].Sensors[k] != nil
+//@   requires forall a int, b int :: 0 <= a && a < b && b < len(sensorCfgs()) && sensorCfgs()[a].HwMon != nil ==> sensorCfgs()[a].HwMon != sensorCfgs()[b].HwMon
+//@   ensures[C17.sensor.bound] result == nil ==> forall s int :: 0 <= s && s < len(sensorCfgs()) && sensorCfgs()[s].HwMon != nil ==> sensorBound(sensorCfgs()[s].HwMon, controllers)
+//@   modifies anything
+//@   loop 1 "for _, config := range configuration.CurrentConfig.Sensors"
+//@     invariant -1 <= rangeindex#1 && same(sensorCfgs(), old(sensorCfgs()))
+//@     invariant forall s int :: 0 <= s && s <= rangeindex#1 && s < len(sensorCfgs()) && sensorCfgs()[s].HwMon != nil ==> sensorBound(sensorCfgs()[s].HwMon, controllers)
+//@   loop 2 "for _, c := range controllers"
+//@     invariant -1 <= rangeindex#2 && 0 <= rangeindex#1 && rangeindex#1 < len(sensorCfgs()) && same(sensorCfgs(), old(sensorCfgs())) && config.HwMon != nil && config.HwMon == sensorCfgs()[rangeindex#1].HwMon
+//@     invariant forall s int :: 0 <= s && s < rangeindex#1 && sensorCfgs()[s].HwMon != nil ==> sensorBound(sensorCfgs()[s].HwMon, controllers)
+//@     invariant found ==> sensorBound(config.HwMon, controllers)
